@@ -352,3 +352,49 @@ where
   fn complete(self) { self.observer.complete() }
   fn is_finished(&self) -> bool { self.observer.is_finished() }
 }
+
+// ---------------------------------------------------------------- C06
+use smallvec::SmallVec;
+pub struct BadSubject<Item> {
+  observers: MutRc<Option<SmallVec<[Box<dyn Publisher<Item, ()>>; 1]>>>,
+  chamber: MutRc<Option<SmallVec<[Box<dyn Publisher<Item, ()>>; 1]>>>,
+}
+impl<Item: Clone> Observer<Item, ()> for BadSubject<Item> {
+  // no load(); one lock acquisition per subscriber
+  fn next(&mut self, value: Item) {
+    let n = self.observers.rc_deref().as_ref().map_or(0, |o| o.len());
+    for i in 0..n {
+      if let Some(observers) = self.observers.rc_deref_mut().as_mut() {
+        observers[i].p_next(value.clone());
+      }
+    }
+  }
+  fn error(self, err: ()) {
+    if let Some(observers) = self.observers.rc_deref_mut().take() {
+      observers.into_iter().filter(|o| !o.p_is_closed()).for_each(|o| o.p_error(err));
+    }
+  }
+  // completes in place: the list stays
+  fn complete(self) {
+    if let Some(observers) = self.observers.rc_deref_mut().as_mut() {
+      observers.drain(..).for_each(|o| o.p_complete());
+    }
+  }
+  fn is_finished(&self) -> bool { self.observers.rc_deref().is_none() }
+}
+impl<Item, O> Observable<Item, (), O> for BadSubject<Item>
+where
+  O: Observer<Item, ()> + 'static,
+{
+  type Unsub = Subscriber<O>;
+  // pushes straight into the live list
+  fn actual_subscribe(self, observer: O) -> Self::Unsub {
+    if let Some(observers) = self.observers.rc_deref_mut().as_mut() {
+      let subscriber = Subscriber::new(Some(observer));
+      observers.push(Box::new(subscriber.clone()));
+      subscriber
+    } else {
+      Subscriber::new(None)
+    }
+  }
+}
